@@ -64,3 +64,14 @@ Theorem model_reproduces_masters_sorted : forall ranges locs masters k Lk m,
   interpolate (getDeltas masters (deltaWeights ranges locs)) (map (supportScalarV Lk) (supports ranges locs)) == m.
 Proof. exact ProofsSupports.model_reproduces_masters_sorted. Qed.
 Print Assumptions model_reproduces_masters_sorted.
+
+(* ... and with the rounding of getDeltas(round=otRound): the value the model builds at master k, evaluated with the scalars of
+   ALL supports there, is within half a unit of master k -- this is the model-level statement of the property for one value *)
+Theorem built_value_within_half : forall ranges locs masters k Lk m,
+  (forall j L, nth_error locs j = Some L -> ProofsSupports.ranges_ok ranges L) ->
+  (forall i j Li Lj, (i < j)%nat -> nth_error locs i = Some Li -> nth_error locs j = Some Lj ->
+     ProofsSupports.differ Lj Li /\ (ProofsSupports.count_nz Li <= ProofsSupports.count_nz Lj)%nat) ->
+  length masters = length locs -> nth_error locs k = Some Lk -> nth_error masters k = Some m ->
+  Qabs (interpolate (getDeltasRounded masters (deltaWeights ranges locs)) (map (supportScalarV Lk) (supports ranges locs)) - m) <= 1 # 2.
+Proof. exact ProofsSupports.built_value_within_half. Qed.
+Print Assumptions built_value_within_half.
